@@ -1,6 +1,8 @@
 package c19
 
 import (
+	"github.com/openconfig/gribigo/compliance"
+
 	"context"
 	"sync"
 	"time"
@@ -159,6 +161,11 @@ type fault struct {
 	noFwdRef bool     // run the inner server with the opposite forward-reference mode than the test asks for
 	slow     bool     // the tests wait for their one-minute convergence timeout: thorough tier only
 	repeat   int      // the expected tests are randomised: run them up to this many times, one failing run flags the fault
+	// expectIf, when set, replaces expect by every test of the suite it selects (the tests
+	// written for the requirement are then found by their own declaration, not hand-picked);
+	// shards > 1 spreads them over that many child processes.
+	expectIf func(*compliance.TestSpec) bool
+	shards   int
 }
 
 var ctlBasic = []string{"Modify RPC connection", "Add IPv4 entry that can be programmed on the server - with RIB ACK", "Get for installed NH - RIB ACK"}
@@ -553,7 +560,9 @@ var faults = []fault{
 			})
 			return p
 		},
-		expect:  []string{"Add IPv4 entry that can be programmed on the server - with FIB ACK", "Delete NH entry successfully - FIB ACK", "Add IPv6 entry that can be programmed on the server - with FIB ACK"},
-		control: []string{"Add IPv4 entry that can be programmed on the server - with RIB ACK", "Modify RPC connection"},
+		// every test that declares RequiresFIBACK is written for this requirement
+		expectIf: func(tt *compliance.TestSpec) bool { return tt.In.RequiresFIBACK },
+		shards:   8,
+		control:  []string{"Add IPv4 entry that can be programmed on the server - with RIB ACK", "Modify RPC connection"},
 	},
 }
